@@ -40,13 +40,15 @@ def scenarios(tier):
     out.append(_scen('A5+termA', {'A': [s5, term], 'B': []}, dev_bound=0, weight=30))
     out.append(_scen('A5|termB', {'A': [s5], 'B': [term]}, dev_bound=0, weight=30))
     out.append(_scen('A1+termA-d1', {'A': [s1, term], 'B': []}, dev_bound=1, weight=40))
-    out.append(_scen('A1|termB-d1', {'A': [s1], 'B': [term]}, dev_bound=1, weight=40))
+    out.append(_scen('A1|termB', {'A': [s1], 'B': [term]}, dev_bound=0, weight=20))
     out.append(_scen('A1+A1+termA', {'A': [s1, s1b, term], 'B': []}, dev_bound=0, weight=30))
-    out.append(_scen('A1+termA|B1', {'A': [s1, term], 'B': [s1b]}, dev_bound=0, weight=40))
-    out.append(_scen('A1+termA|termB', {'A': [s1, term], 'B': [term]}, dev_bound=0, weight=30))
     out.append(_scen('closeA-anywhere-d1', {'A': [s5, close], 'B': []}, dev_bound=1, weight=30))
-    out.append(_scen('closeB-anywhere-d1', {'A': [s5], 'B': [close]}, dev_bound=1, weight=30))
+    out.append(_scen('closeB-anywhere', {'A': [s5], 'B': [close]}, dev_bound=0, weight=30))
     if tier == 'thorough':
+        out.append(_scen('A1|termB-d1', {'A': [s1], 'B': [term]}, dev_bound=1, weight=60))
+        out.append(_scen('A1+termA|B1', {'A': [s1, term], 'B': [s1b]}, dev_bound=0, weight=90))
+        out.append(_scen('A1+termA|termB', {'A': [s1, term], 'B': [term]}, dev_bound=0, weight=60))
+        out.append(_scen('closeB-anywhere-d1', {'A': [s5], 'B': [close]}, dev_bound=1, weight=30))
         out.append(_scen('A5+termA-d1', {'A': [s5, term], 'B': []}, dev_bound=1, weight=60))
         out.append(_scen('A5|termB-d1', {'A': [s5], 'B': [term]}, dev_bound=1, weight=60))
         out.append(_scen('A3+termA|B1', {'A': [s3, term], 'B': [s1]}, dev_bound=0, weight=100))
